@@ -140,6 +140,27 @@ fn norm_algo(a: Option<&str>) -> &str {
     a.unwrap_or("sha256")
 }
 
+/// a size-limited tmpfs on `dir` (needs the privilege to mount; false when that is not available)
+pub fn mount_tiny(dir: &Path, kb: u64) -> bool {
+    use std::os::unix::ffi::OsStrExt;
+    let d = match std::ffi::CString::new(dir.as_os_str().as_bytes()) {
+        Ok(d) => d,
+        Err(_) => return false,
+    };
+    let opts = std::ffi::CString::new(format!("size={}k,mode=0755", kb)).unwrap();
+    let t = std::ffi::CString::new("tmpfs").unwrap();
+    unsafe { libc::mount(t.as_ptr(), d.as_ptr(), t.as_ptr(), 0, opts.as_ptr() as *const libc::c_void) == 0 }
+}
+
+pub fn unmount_tiny(dir: &Path) {
+    use std::os::unix::ffi::OsStrExt;
+    if let Ok(d) = std::ffi::CString::new(dir.as_os_str().as_bytes()) {
+        unsafe {
+            libc::umount2(d.as_ptr(), libc::MNT_DETACH);
+        }
+    }
+}
+
 pub fn algo_rank(a: &str) -> u8 {
     match a {
         "sha512" => 0,
@@ -156,6 +177,7 @@ impl<'a> Interp<'a> {
         // "odd_root": every path of the run (cache, destinations, link targets) has a component that is not valid UTF-8;
         // "odd_cache": only the cache directory's own name
         let root = if style == "odd_root" { ctx.scratch.join(pdec(&format!("r{run_id}-\u{f7fe}\u{f7c3}x"))) } else { ctx.scratch.join(format!("r{run_id}")) };
+        unmount_tiny(&root.join("cache"));
         let _ = std::fs::remove_dir_all(&root);
         std::fs::create_dir_all(root.join("out")).ok();
         std::fs::create_dir_all(root.join("targets")).ok();
@@ -167,6 +189,14 @@ impl<'a> Interp<'a> {
             _ => penc(&cache),
         };
         let odd = style.starts_with("odd");
+        // "tiny_fs": the cache directory is its own, very small filesystem (a size-limited tmpfs): it really fills up,
+        // in system calls and in page faults of mapped files alike
+        let mut tiny = None;
+        if style == "tiny_fs" {
+            std::fs::create_dir_all(&cache).ok();
+            let kb = sc.get("tiny_fs_kb").and_then(|v| v.as_u64()).unwrap_or(512);
+            tiny = Some(mount_tiny(&cache, kb));
+        }
         let mut it = Interp {
             ctx,
             sc,
@@ -189,6 +219,14 @@ impl<'a> Interp<'a> {
         };
         if odd {
             it.probe("non_utf8_paths");
+        }
+        match tiny {
+            Some(true) => {
+                it.probe("tiny_fs_mounted");
+                it.m.cache_dir = true;
+            }
+            Some(false) => it.probe("tiny_fs_unavailable"),
+            None => {}
         }
         it
     }
@@ -521,6 +559,9 @@ impl<'a> Interp<'a> {
             let p = self.ctx.scratch.display().to_string();
             self.chdir_all(&p);
             self.cwd = None;
+        }
+        if self.sc.get("cache_style").and_then(|v| v.as_str()) == Some("tiny_fs") {
+            unmount_tiny(&self.cache);
         }
         if !self.ctx.keep_dirs {
             let _ = std::fs::remove_dir_all(&self.root);
